@@ -27,6 +27,8 @@ func checkC15(c *Ctx) {
 	c15DiagsKept(c)
 	c.Rule("R9 bounded: every slice of the fixed-size padding buffer in hclwrite.Tokens.WriteTo has an upper bound that is clamped to the buffer's length (a comparison with len(buffer) on every path): the serialiser behind Format and File.Bytes cannot panic on a token that is preceded by many spaces")
 	paddingBounded(c, "bounded")
+	c15BoundedIndex(c)
+	c15NonNil(c)
 	c.NotCovered("index-out-of-range / nil dereference / failed type assertion on arbitrary damaged input (value reasoning)")
 	c.NotCovered("in-bounds source ranges of diagnostics")
 	c.NotCovered("progress of byte-level scanners (Ragel machines, json scanner): arithmetic facts")
@@ -705,4 +707,25 @@ func staticCallersOnly(p *Program, fn *ssa.Function) bool {
 		}
 	}
 	return true
+}
+
+
+// R11 nonnil: results that are used without a nil test are never nil.
+func c15NonNil(c *Ctx) {
+	c.Rule("R11 nonnil: in json, hclsyntax and hclwrite, wherever a method is invoked on, a field taken of, or a pointer dereferenced from (a result of) a call of a function of the same package without a dominating nil test, that result is structurally never nil: every return of the callee yields a boxed concrete value, an allocation, a value under its own != nil test, or such a result of another function (greatest fixed point over recursion)")
+	e := newNonNilEngine(c.P)
+	n := 0
+	for _, s := range e.sites(c.P.pkgFuncs("json", "hclsyntax", "hclwrite")) {
+		n++
+		c.Sites++
+		name := FuncName(s.fn)
+		c.Fn(name)
+		k, _ := funcKeyAndSig(s.callee)
+		if s.callee.Parent() != nil {
+			k = s.callee.Name()
+		}
+		key := fmt.Sprintf("%s:use[%s#%d%s]", name, k, s.idx, s.use)
+		c.Check(s.ok, "nonnil", key, s.pos, "never nil", "used without a nil test, but "+s.why+": a nil pointer dereference (panic) on the input that takes that path")
+	}
+	c.Floor("nonnil uses", n, 40, "unchecked uses of same-package results in the front ends")
 }
